@@ -773,6 +773,26 @@ class Srv:
             else:
                 res.bad("R9.queue", "recv|receiver-queue", "msg() files a message under %s of the sender id but the Channel reads the queue %s of the party id: the two sides disagree on which queue belongs to a party" % (mhow or ["identity"], how or ["identity"]), where(b, bi))
         res.need("R9.queue", "queue_lookups", len(sides.get("msg", [])) + len(sides.get("recv", [])), 2, "checked lookups of the per-peer byte queues (msg and Channel::recv_bytes_from)")
+        # msg() reads a failing `send` as "the engine is gone" and stops the state machine: that is only right
+        # while every receiver lives exactly as long as the engine's Channel - no queue whose sender stays
+        # registered may be closed or dropped by the server core itself
+        closed = []
+        for k, b in fg.bodies.items():
+            if b.krate != "polytune_server_core":
+                continue
+            for bi, t in b.calls():
+                if bi not in b.live_blocks() or not t["args"] or t["args"][0]["k"] == "const":
+                    continue
+                names = callee_names(t)
+                tl = names[-1].rsplit("::", 1)[-1] if names else ""
+                ty = t["args"][0]["p"]["ty"]
+                if "tokio::sync::mpsc::bounded::Receiver<alloc::vec::Vec<u8" in ty and "Mutex<" not in ty and "Vec<tokio" not in ty and (tl == "close" or names[-1].endswith("mem::drop")):
+                    closed.append((b, bi, tl))
+        if closed:
+            b, bi, tl = closed[0]
+            res.bad("R9.queue", "queues|open", "a per-peer byte queue is closed (`%s`) by the server core while its sender stays registered: msg() takes the failing send of a message for that queue for a vanished engine and stops the state machine of a live computation" % tl, where(b, bi))
+        else:
+            res.ok("R9.queue", "queues|open", "", "no per-peer byte queue is closed or dropped by the server core: a send in msg() fails only when the engine's Channel is gone")
 
     def handle_lifecycle_rules(self):
         """R9.handle (HTTP layer): a PolicyStateHandle leaves the routing table only after the state
@@ -1702,6 +1722,9 @@ class Srv:
             hc = hs_.evs(K("handler", "handle_cmd"))
             if hc:
                 res.ok("R9.permit", "start|loop", fl(hc[0].sp), "start() owns the actor; on Break it returns and drops it (and a stored permit)")
+        # a state machine whose handle was taken out of the table while it keeps running holds its permit
+        # out of reach of cancel / of the end-of-run clean-up (shared with C14)
+        self.handle_lifecycle_rules()
 
     def task_permit(self, hr):
         # reuse the C13 task rule for the permit
